@@ -2,6 +2,7 @@ mod dft;
 mod hal;
 mod tmpbytes;
 mod util;
+mod wire;
 
 use serde_json::Value;
 use std::io::{BufRead, BufReader, BufWriter, Write};
@@ -59,6 +60,51 @@ fn main() {
             }
             out.flush().unwrap();
             println!("hal: {} descriptors {} events", cases.len(), nev);
+        }
+        // wire <descriptors.ndjson> <events.ndjson>: runs the cases in a child process and survives aborts
+        "wire" => {
+            let cases = read_ndjson(&args[2]);
+            let seed = env_seed();
+            std::fs::File::create(&args[3]).unwrap();
+            let mut next = 0usize;
+            let mut aborts = 0usize;
+            while next < cases.len() {
+                let st = std::process::Command::new(&args[0])
+                    .args(["wire-child", &args[2], &args[3], &next.to_string()])
+                    .stderr(std::process::Stdio::null())
+                    .status()
+                    .expect("spawn child");
+                let done = read_ndjson(&args[3]).len();
+                if st.success() && done >= cases.len() {
+                    break;
+                }
+                // the child died while running case `done`: log it as an abort and go on after it
+                let mut c = cases[done].clone();
+                if c.get("id").is_none() {
+                    c["id"] = serde_json::json!(done + 1);
+                }
+                let ev = wire::run_wire_case(&c, seed, true);
+                let mut f = std::fs::OpenOptions::new().append(true).open(&args[3]).unwrap();
+                writeln!(f, "{}", serde_json::to_string(&ev).unwrap()).unwrap();
+                aborts += 1;
+                next = done + 1;
+            }
+            println!("wire: {} events ({} aborts)", cases.len(), aborts);
+        }
+        "wire-child" => {
+            let cases = read_ndjson(&args[2]);
+            let from: usize = args[4].parse().unwrap();
+            let seed = env_seed();
+            let mut f = std::fs::OpenOptions::new().append(true).open(&args[3]).unwrap();
+            for (idx, c0) in cases.iter().enumerate().skip(from) {
+                let mut c = c0.clone();
+                if c.get("id").is_none() {
+                    c["id"] = serde_json::json!(idx + 1);
+                }
+                let ev = wire::run_wire_case(&c, seed, false);
+                writeln!(f, "{}", serde_json::to_string(&ev).unwrap()).unwrap();
+                f.flush().unwrap();
+            }
         }
         // tmpbytes <n> <out.ndjson>
         "tmpbytes" => {
